@@ -3,7 +3,7 @@ import ast
 from fractions import Fraction
 
 from .util import *
-from ..sym import RangeV, Cat, EnumV
+from ..sym import Bound,  RangeV, Cat, EnumV
 
 S = "vpsc.Solver"
 
@@ -35,13 +35,25 @@ def _attr_call(c, attr, recv_suffix=None):
 # ---------------------------------------------------------------------------
 
 def _satisfy_loop(ctx):
-    P = ctx.P
-    f = P.func(S + ".satisfy")
-    cfg = ctx.cfg(f)
-    loops = [c for c in cfg.loops if isinstance(c["stmt"], ast.While)]
-    if len(loops) != 1:
-        raise Undecided("Solver.satisfy has %d while loops" % len(loops))
-    return f, cfg, loops[0]
+    def build():
+        P = ctx.P
+        f = P.func(S + ".satisfy")
+        cfg = ctx.cfg(f)
+        loops = [c for c in cfg.loops if isinstance(c["stmt"], ast.While)]
+        if len(loops) == 1 and isinstance(loops[0]["stmt"].test, ast.Constant):
+            # `while True: v = fetch(); if not ...: break; ...` is the same loop written loop-and-a-half: rotate it
+            from ..normalise import rotate_while_true
+            from ..cfg import CFG
+
+            body, nrot = rotate_while_true(f.node.body)
+            if nrot:
+                cfg = CFG(body)
+                loops = [c for c in cfg.loops if isinstance(c["stmt"], ast.While)]
+        if len(loops) != 1:
+            raise Undecided("Solver.satisfy has %d while loops" % len(loops))
+        return f, cfg, loops[0]
+
+    return ctx.get("vpsc.satisfy_loop", build)
 
 
 @rule("VPSC.REFETCH")
@@ -445,19 +457,25 @@ def cycle(ctx, R):
     ok = bool(entry) and all(e in unsat + rem or not cfg.exists_path(e, head, avoid=unsat + rem) for e in entry)
     R.check(ok, "VPSC.CYCLE", "Solver.satisfy|same-block branch", where(f, t.ast), "every path flags the constraint unsatisfiable or splits the block", "in the same-block branch a path returns to the loop test without flagging the constraint unsatisfiable or splitting the block: the loop can spin on one constraint (or a contradictory cycle is silently accepted)")
     # unsatisfiable := True only inside that branch
+    def judge(g, nn, par, node):
+        val = par.value if isinstance(par, ast.Assign) else None
+        if isinstance(val, ast.Constant) and val.value is False:
+            R.ok("VPSC.UNSAT", "%s|reset" % g.qual, where(g, nn), "initialised False", nontrivial=False)
+            return
+        okw = g.qual == S + ".satisfy" and node is not None and any(e is node or cfg.dominates(e, node) for e in entry)
+        R.check(okw, "VPSC.UNSAT", "%s|unsatisfiable := %s" % (g.qual, ntext(val) if val is not None else "?"), where(g, nn), "flagged only when both ends already share a block", "`unsatisfiable` is set outside the same-block branch of Solver.satisfy: a satisfiable constraint can be dropped")
+
     for g in P.funcs.values():
+        if g.qual == S + ".satisfy":
+            continue  # judged on the (possibly rotated) loop below
         for nn in ast.walk(g.node):
             if isinstance(nn, ast.Attribute) and nn.attr == "unsatisfiable" and isinstance(nn.ctx, ast.Store) and P.enclosing_func(nn) is g:
-                par = getattr(nn, "_parent", None)
-                val = par.value if isinstance(par, ast.Assign) else None
-                if isinstance(val, ast.Constant) and val.value is False:
-                    R.ok("VPSC.UNSAT", "%s|reset" % g.qual, where(g, nn), "initialised False", nontrivial=False)
-                    continue
-                okw = g.qual == S + ".satisfy"
-                if okw:
-                    node = cfg.of_stmt.get(par)
-                    okw = node is not None and any(e is node or cfg.dominates(e, node) for e in entry)
-                R.check(okw, "VPSC.UNSAT", "%s|unsatisfiable := %s" % (g.qual, ntext(val) if val is not None else "?"), where(g, nn), "flagged only when both ends already share a block", "`unsatisfiable` is set outside the same-block branch of Solver.satisfy: a satisfiable constraint can be dropped")
+                judge(g, nn, getattr(nn, "_parent", None), None)
+    for node in cfg.stmt_nodes():
+        if node.kind == "stmt" and isinstance(node.ast, (ast.Assign, ast.AugAssign)):
+            for nn in ast.walk(node.ast):
+                if isinstance(nn, ast.Attribute) and nn.attr == "unsatisfiable" and isinstance(nn.ctx, ast.Store):
+                    judge(f, nn, node.ast, node)
     # cycle test precedes: isActiveDirectedPathBetween(v.right, v.left)
     cyc = [n for n in cfg.nodes if n.kind == "test" and _has_call(n, lambda k: _attr_call(k, "isActiveDirectedPathBetween"))]
     if cyc:
@@ -468,36 +486,72 @@ def cycle(ctx, R):
         R.bad("VPSC.CYCLE", "Solver.satisfy|cycle test", where(f), "the same-block branch no longer tests for an active directed path (contradictory cycle)")
 
 
+def _blocks_split_model(ctx):
+    """Blocks.split value-numbered for an arbitrary block B of the list: what is inserted, removed and re-queued when the
+    block is split, and under which condition on the minimum multiplier (read from the path facts at the split call)."""
+    def build():
+        P = ctx.P
+        f = P.func("vpsc.Blocks.split")
+        log = {"split": [], "insert": [], "remove": [], "append": [], "update": 0}
+
+        def hook(fv, args, kwargs, node, st_):
+            q = fv.func.qual if isinstance(fv, Closure) else None
+            if q == "vpsc.Block.split":
+                facts = {k: (ev.fact_trees.get(k), v) for k, v in ev.facts.items()}
+                log["split"].append(([key(a) for a in args], facts))
+                # the split re-homes the variables of the constraint: what was read before stays, later reads differ
+                if args and isinstance(args[0], Opaque):
+                    st_.heap[(args[0].text + ".left", "block")] = Opaque("NEWBLOCK-L", kind="obj")
+                    st_.heap[(args[0].text + ".right", "block")] = Opaque("NEWBLOCK-R", kind="obj")
+                return Seq("list", [Opaque("NB0", kind="obj"), Opaque("NB1", kind="obj")])
+            if q == "vpsc.Blocks.insert":
+                log["insert"].append(key(args[0]) if args else None)
+                return NONE
+            if q == "vpsc.Blocks.remove":
+                log["remove"].append(key(args[0]) if args else None)
+                return NONE
+            if q == "vpsc.Block.findMinLM":
+                return Opaque("M", cls=P.cls("vpsc.Constraint"), kind="maybe")
+            if q == "vpsc.Blocks.updateBlockPositions":
+                log["update"] += 1
+                return NONE
+            if (isinstance(fv, Bound) and fv.name == "append" and isinstance(fv.recv, Opaque) and fv.recv.text == "INACTIVE") or (isinstance(fv, Opaque) and fv.text == "INACTIVE.append"):
+                log["append"].append(key(args[0]) if args else None)
+                return NONE
+            return None
+
+        ev = new_eval(P, on_call=hook)
+        st = ev.new_state(f)
+        s = Opaque("self", cls=P.cls("vpsc.Blocks"), kind="obj")
+        st.heap[("self", "_list")] = Opaque("LIST", cls=P.cls("vpsc.Block"), kind="seq")
+        ev.nonempty.add("LIST")
+        ev.call_closure(Closure(f, None, selfv=s), [Opaque("INACTIVE", kind="seq")], {}, st)
+
+        def harvest(evs):
+            for e in evs:
+                if e[0] == "seq-append" and len(f.params) > 1 and e[1] == f.params[1]:
+                    log["append"].append(key(e[2]))
+                elif e[0] == "loop":
+                    harvest(e[3])
+                elif e[0] == "in-branch":
+                    harvest([e[3]])
+
+        harvest(st.events)
+        return f, log, ev
+
+    return ctx.get("vpsc.blocks_split_model", build)
+
+
 @rule("VPSC.BLOCKLIST")
 def blocklist(ctx, R):
     P = ctx.P
-    # Blocks.split: new blocks inserted, split block removed
-    f = P.func("vpsc.Blocks.split")
+    # Blocks.split: new blocks inserted, split block removed (decided on the value-numbered loop body)
+    f, log, _ev = _blocks_split_model(ctx)
     cfg = ctx.cfg(f)
-    for n in cfg.stmt_nodes():
-        if n.kind == "stmt" and isinstance(n.ast, ast.Assign) and isinstance(n.ast.value, ast.Call) and isinstance(n.ast.value.func, ast.Attribute) and n.ast.value.func.attr == "split" and ntext(n.ast.value.func.value) in ("Block", "cls"):
-            nb = ntext(n.ast.targets[0])
-            ins = [m for m in cfg.stmt_nodes() if _has_call(m, lambda k: _attr_call(k, "insert") and ntext(k.func.value) == "self")]
-            loops_over = [l for l in cfg.loops if isinstance(l["stmt"], ast.For) and ntext(l["stmt"].iter) == nb and any(i in cfg.loop_body(l) or i is l["head"] for i in ins)]
-            rm = [m for m in cfg.stmt_nodes() if _has_call(m, lambda k: _attr_call(k, "remove") and ntext(k.func.value) == "self")]
-            ok_ins = bool(loops_over) or len([i for i in ins if nb in ntext(i.ast)]) >= 2
-            if loops_over:
-                # the loop must insert its own element
-                l = loops_over[0]["stmt"]
-                ok_ins = any(_attr_call(k, "insert") and k.args and ntext(k.args[0]) == ntext(l.target) for k in calls_in(l))
-            heads = [l["head"] for l in cfg.loops if isinstance(l["stmt"], ast.For) and ntext(l["stmt"].iter) != nb]
-            ok_rm = bool(rm) and all(not cfg.exists_path(n, e, avoid=rm) for e in heads + [cfg.exit] if e in cfg.reach(n))
-            R.check(ok_ins, "VPSC.BLOCKLIST", "Blocks.split|both new blocks inserted", where(f, n.ast), "both blocks produced by the split enter the block list", "the blocks produced by Block.split are not all inserted into the block list")
-            R.check(ok_rm, "VPSC.BLOCKLIST", "Blocks.split|split block removed", where(f, n.ast), "the split block leaves the list on every path", "the block that was split stays in the block list on some path (its variables are then counted twice)")
-            # which block is removed: the block of the split constraint
-            if rm:
-                k = [k for k in _calls(rm[0]) if _attr_call(k, "remove")][0]
-                arg = ntext(k.args[0]) if k.args else ""
-                defs = [m for m in cfg.stmt_nodes() if m.kind == "stmt" and isinstance(m.ast, ast.Assign) and ntext(m.ast.targets[0]) == arg]
-                src = ntext(defs[-1].ast.value) if defs else arg
-                loopvar = [ntext(l["stmt"].target) for l in cfg.loops if isinstance(l["stmt"], ast.For) and ntext(l["stmt"].iter) == "self._list"]
-                okb = src.endswith(".left.block") or src.endswith(".right.block") or arg in loopvar
-                R.check(okb, "VPSC.BLOCKLIST", "Blocks.split|removes the split block", where(f, rm[0].ast), "removes the block that contained the split constraint", "removes `%s` (= %s), not the block that contained the split constraint" % (arg, src))
+    R.check(len(log["split"]) == 1 and log["split"][0][0] == ["M"], "VPSC.BLOCKLIST", "Blocks.split|splits at the minimum multiplier", where(f), "Block.split(findMinLM())", "Blocks.split calls Block.split with %s, expected the constraint returned by findMinLM() exactly once per pass" % [x[0] for x in log["split"]])
+    R.check(sorted(log["insert"]) == ["NB0", "NB1"], "VPSC.BLOCKLIST", "Blocks.split|both new blocks inserted", where(f), "both blocks produced by the split enter the block list, once each", "the blocks produced by Block.split are not inserted into the block list exactly once each (inserted: %s)" % log["insert"])
+    R.check(log["remove"] in (["M.left.block"], ["M.right.block"], ["elem(LIST)"]), "VPSC.BLOCKLIST", "Blocks.split|removes the split block", where(f), "removes the block that contained the split constraint (looked up before the split re-homes its variables)", "Blocks.split removes %s: expected the block that contained the split constraint, read before Block.split re-homes its variables" % log["remove"])
+    R.check(log["append"] == ["M"], "VPSC.REQUEUE", "Blocks.split|re-queues the split constraint", where(f), "the deactivated constraint returns to the inactive list", "Blocks.split appends %s to the inactive list, expected the constraint it just deactivated" % log["append"])
     # Solver.satisfy
     f, cfg, loop = _satisfy_loop(ctx)
     head = loop["head"]
@@ -673,7 +727,7 @@ def allcs(ctx, R):
     R.check(all(reset.values()), "VPSC.ALLCS", "Solver.__init__|adjacency reset", where(f), "every variable starts with empty constraint lists", "Solver.__init__ does not reset cIn/cOut of every variable (%s): constraints of an earlier solver stay attached" % reset)
     g = P.func("vpsc.Solver.setStartingPositions") if "vpsc.Solver.setStartingPositions" in P.funcs else None
     if g is not None:
-        ev2 = new_eval(P, inline_filter=lambda fn: fn.qual == g.qual)
+        ev2 = new_eval(P, inline_filter=lambda fn: fn.qual.startswith("vpsc.Solver.") and fn.name not in ("solve", "satisfy", "mostViolated"))
         st2 = ev2.new_state(g)
         st2.heap[("self", "cs")] = CS
         st2.heap[("self", "vs")] = VS
@@ -806,34 +860,32 @@ def split_first(ctx, R):
 @rule("VPSC.LMTOL")
 def lmtol(ctx, R):
     P = ctx.P
-    f = P.func("vpsc.Blocks.split")
+    f, log, _ev = _blocks_split_model(ctx)
     cfg = ctx.cfg(f)
-    ev = new_eval(P, inline_filter=lambda fn: False)
-    tests = [t for t in cfg.nodes if t.kind == "test" and ".lm" in ntext(t.ast)]
     ok = False
-    detail = "no multiplier test"
-    if tests:
-        st = ev.new_state(f)
-        st.env.vars["v"] = Opaque("m")
-        for nm in {n.id for n in ast.walk(tests[0].ast) if isinstance(n, ast.Name) and n.id not in ("Solver", "self")}:
-            st.env.vars[nm] = Opaque("m")
-        c = ev.cond(tests[0].ast, st)
-        detail = show(c)
-        if isinstance(c, Cond):
-            found = []
-
-            def walk(t):
-                if isinstance(t, tuple):
-                    if t[0] == "cmp" and t[1] in ("lt", "le") and key(t[2]) == "m.lm":
-                        found.append(t[3])
-                    for x in t[1:]:
-                        walk(x)
-
-            walk(c.tree)
-            if len(found) == 1 and num_const(found[0]) is not None:
-                T = num_const(found[0])
-                ok = Fraction(-1, 10) <= T <= Fraction(1, 1000)
-                detail = "splits when min multiplier < %s" % T
+    detail = "no multiplier test on the path to the split"
+    if len(log["split"]) == 1:
+        facts = log["split"][0][1]
+        bounds = []
+        for k_, (t, pol) in facts.items():
+            if not (isinstance(t, tuple) and t[0] == "cmp" and t[1] in ("lt", "le", "gt", "ge")):
+                continue
+            op, a_, b_ = t[1], t[2], t[3]
+            if key(b_) == "M.lm" and num_const(a_) is not None:
+                a_, b_ = b_, a_
+                op = {"lt": "gt", "le": "ge", "gt": "lt", "ge": "le"}[op]
+            if key(a_) != "M.lm" or num_const(b_) is None:
+                continue
+            if not pol:
+                op = {"lt": "ge", "le": "gt", "gt": "le", "ge": "lt"}[op]
+            bounds.append((op, num_const(b_)))
+        ups = [b for b in bounds if b[0] in ("lt", "le")]
+        if len(ups) == 1 and len(bounds) == 1:
+            T = ups[0][1]
+            ok = Fraction(-1, 10) <= T <= Fraction(1, 1000)
+            detail = "splits when min multiplier %s %s" % ("<" if ups[0][0] == "lt" else "<=", T)
+        else:
+            detail = "the split happens under %s" % (bounds or sorted(facts))
     R.check(ok, "VPSC.LMTOL", "Blocks.split|tolerance", where(f), detail, "blocks are split only when the minimum Lagrange multiplier is below a bound outside [-0.1, 1e-3] (%s): items stay pushed by constraints that should have been released, or blocks are split for ever" % detail)
     # examines every block
     lps = [l for l in cfg.loops if isinstance(l["stmt"], ast.For) and ntext(l["stmt"].iter) == "self._list"]
